@@ -450,6 +450,8 @@ class SockPort:
 
 
 REAL_SCALE = 0.05  # 1000 ms policy timeout -> 50 ms of real time
+REAL_GUARD_S = 20.0  # a real-socket read still pending after this long is recorded as "Hang"
+E2E_READ_TO_S = 5.0
 
 
 async def real_client_run(kind: str, contents: list[bytes], chunks: list[bytes], plan: list[tuple[Any, ...]],
@@ -497,9 +499,12 @@ async def real_client_run(kind: str, contents: list[bytes], chunks: list[bytes],
         rt = asyncio.ensure_future(client_reader(tr, rec, policy, len(contents) + 50 * (n_waits(plan) + 1) + 4,
                                                  scale=REAL_SCALE))
         try:
-            await asyncio.wait_for(rt, 60.0)
+            await asyncio.wait_for(rt, REAL_GUARD_S)
         except asyncio.TimeoutError:
-            raise Machinery("real socket run did not finish within 60 s") from None
+            # recorded, not judged here: TLC decides whether a read may still be pending
+            rec.note("real-run-guard-expired")
+            if rec.reading:
+                rec.end("Hang")
         finally:
             ft.cancel()
             await tr.close()
@@ -588,10 +593,12 @@ async def real_server_run(kind: str, contents: list[bytes], chunks: list[bytes],
         await asyncio.wait_for(run_plan(_SilentPort(port), rec, stream, plan, has_timeouts=False, scale=REAL_SCALE),
                                60.0)
         if any(op[0] == "E" for op in plan):
-            await asyncio.wait_for(finished.wait(), 20.0)
-            await asyncio.wait_for(dt, 20.0)
+            await asyncio.wait_for(finished.wait(), REAL_GUARD_S)
+            await asyncio.wait_for(dt, REAL_GUARD_S)
     except asyncio.TimeoutError:
-        raise Machinery("real server run did not finish in time") from None
+        rec.note("real-run-guard-expired")
+        if rec.reading:
+            rec.end("Hang")
     finally:
         dt.cancel()
         pw.close()
@@ -662,41 +669,52 @@ async def real_end_to_end(kind: str, msgs: list[bytes], mode: str, tmpdir: str) 
         cur_req = [b""]
         sender_hook(tr.writer, up, cur_req)
 
-        async def read_one() -> None:
-            down.begin(10000)
+        async def read_one() -> bool:
+            down.begin(int(E2E_READ_TO_S * 1000))
             try:
-                data = await tr.read(timeout=10.0)
+                data = await tr.read(timeout=E2E_READ_TO_S)
             except asyncio.TimeoutError:
                 down.end("Timeout")
-                return
+                return False
             except Exception as e:  # noqa: BLE001
                 down.note("error:" + type(e).__name__)
                 down.end("Error")
-                return
+                return False
             down.end("Msg" if data else "Empty", data)
+            return bool(data)
 
         async def write_one(m: bytes) -> None:
             _seal(up)
             cur_req[0] = m
-            await tr.write(m, timeout=10.0)
+            await tr.write(m, timeout=E2E_READ_TO_S)
 
+        good = True  # the exchange stops at the first read that does not return a message
         if mode == "lockstep":
             for m in msgs:
                 await write_one(m)
-                await read_one()
+                good = await read_one()
+                if not good:
+                    break
         else:
             for m in msgs:
                 await write_one(m)
             for _ in msgs:
-                await read_one()
+                good = await read_one()
+                if not good:
+                    break
         _seal(up)
-        if tr.writer.can_write_eof():
+        if good and tr.writer.can_write_eof():
             tr.writer.write_eof()
-            await asyncio.wait_for(finished.wait(), 20.0)
-            await read_one()  # the server closed: end-of-stream at the client
+            try:
+                await asyncio.wait_for(finished.wait(), REAL_GUARD_S)
+                await read_one()  # the server closed: end-of-stream at the client
+            except asyncio.TimeoutError:
+                up.note("real-run-guard-expired")
+                if up.reading:
+                    up.end("Hang")
         await tr.close()
     except asyncio.TimeoutError:
-        raise Machinery("real end-to-end run did not finish in time") from None
+        up.note("real-run-write-timeout")
     finally:
         server.close()
         await server.wait_closed()
